@@ -49,6 +49,23 @@ mod __verif_c11 {
         target_case(64);
     }
 
+    // @harness tiers=thorough timeout=1200
+    // @encodes distributed::splits::target_split_bytes
+    // @bounds all total_bytes: u64; node counts 4, 6, 7, 12, 24, 32, 48, 63 (the quick tier covers 0, 1, 2, 3, 5, 8, 16, 64)
+    // @oracle as target_split_bytes_is_clamped_for_all_sizes
+    #[kani::proof]
+    #[kani::unwind(2)]
+    fn target_split_bytes_more_node_counts() {
+        target_case(4);
+        target_case(6);
+        target_case(7);
+        target_case(12);
+        target_case(24);
+        target_case(32);
+        target_case(48);
+        target_case(63);
+    }
+
     fn one_split(file: &str, path: &str, rg: usize, off: i64, rows: i64, bytes: u64) -> SplitSet {
         SplitSet {
             table: String::from("t"),
